@@ -396,7 +396,9 @@ def sample_records(j, n=3):
             picked.append(r)
             break
     if not picked:
-        picked = recs[:n]
+        # other trace formats (iterators, estimator, cost tracker): an iterator run over >= 2 entries / records from the middle
+        rich = [r for r in recs if r.get('len', 0) >= 2 and r.get('word')] or [r for r in recs if (r.get('obs') or {}).get('all')]
+        picked = rich[len(rich) // 2: len(rich) // 2 + 2] if rich else recs[len(recs) // 2: len(recs) // 2 + n]
     return dict(instance=j['tag'], records=picked[:4])
 
 
